@@ -69,6 +69,20 @@ fileMustOpen(FileName fn, IOMode mode)
 	return stream;
 }
 
+/*
+ * Close an output stream.  A pending write error on the stream or a failing
+ * close means the file is incomplete: report it through the error handler,
+ * exactly as a failure to open the file is reported.
+ */
+void
+fileMustClose(FILE *stream, FileName fn)
+{
+	Bool	bad = ferror(stream) != 0;
+
+	if (fclose(stream) != 0) bad = true;
+	if (bad) (void) (*fileError)(fn, osIoWrMode);
+}
+
 Bool
 fileIsOpenable(FileName fn, IOMode mode)
 {
